@@ -170,6 +170,24 @@ func ruleC04Lists(rule string) ruleFn {
 			} else {
 				c.Bad(rule, key, "", "RemoveBackend must Close() the backend and delete(r.backends, address)", nil)
 			}
+			// an entry found in quorumBackends is deleted from quorumBackends
+			var qd []ssa.Instruction
+			eachInstr(fn, func(in ssa.Instruction) {
+				if cl, ok := in.(*ssa.Call); ok && callMatches(cl, "builtin:delete") && R.V(cl.Call.Args[0]) == "$0.quorumBackends" && R.V(cl.Call.Args[1]) == "$1" {
+					qd = append(qd, in)
+				}
+			})
+			qkey := FnName(fn) + " | delete(r.quorumBackends, address)"
+			if len(qd) == 0 {
+				c.Bad(rule, qkey, c.P.Pos(fn.Pos()), "a removed quorum backend stays in r.quorumBackends, hence in the updater list, and keeps receiving WriteAt(nil,0)", nil)
+			} else {
+				ws := afterEdge(fn, atomEdges(fn, R, "has($0.quorumBackends,$1)"), func(in ssa.Instruction) bool { return in == qd[0] }, nil, func(in ssa.Instruction) bool { _, ok := in.(*ssa.Return); return ok })
+				if len(ws) == 0 {
+					c.OK(rule, qkey, c.P.InstrPos(qd[0]), "a found quorum backend is deleted on every path", true)
+				} else {
+					c.Bad(rule, qkey, c.P.InstrPos(qd[0]), "a found quorum backend can be left in r.quorumBackends", c.witness(ws[0]))
+				}
+			}
 		}
 		// SetMode(_, ERR) stops monitoring
 		if fn := c.P.Fn(fRepl + "SetMode"); fn != nil {
@@ -765,6 +783,11 @@ func ruleC18(c *Ctx) {
 			atom("canAdd", fCtl+"canAdd($0,$1)#0"),
 			atom("backend created", "+invoke.Create($0.factory,$1)#1 -nil ==0"))
 		c.Guard(rule, fn, sites, "admission", isUnlockCall, Need{Desc: "controller write lock (re)taken", Instr: isWLockCall})
+		// the replication-factor check must hold in the lock region of the admission itself
+		// (the lock is dropped around factory.Create: a check made before that is stale)
+		c.Guard("C18-RF", fn, sites, "admission", func(in ssa.Instruction) bool { return isUnlockCall(in) || isLockCall(in) },
+			atom("replication factor not reached, checked in this lock region", "+"+fCtl+"verifyReplicationFactor($0) -nil ==0"))
+		c.Doc("C18-RF", "addReplica: the append of a data replica is cut off by verifyReplicationFactor()==nil evaluated in the same lock region (no Lock/Unlock between the check and addReplicaNoLock)")
 	}
 	if fn := c.Anchor(rule, fCtl+"verifyReplicationFactor"); fn != nil {
 		c.Guard(rule, fn, nilErrorReturns(fn), "return nil", nil,
